@@ -86,6 +86,31 @@ def plain_first(e):
     return first is None or not first[2]
 
 
+def sync_glued(ts):
+    return frozenset(id(e) for e in ts.edges if plain_first(e))
+
+
+def line_glued(ts):
+    by_dst = {}
+    for e in ts.edges:
+        by_dst.setdefault((e.thread, e.dst), []).append(e)
+    needs = set()
+    for e in ts.edges:
+        first = next((op for op in e.info if op[3]), None)
+        if first is None:
+            continue
+        if _postcall(first):
+            needs.add(id(e))
+            continue
+        if not _line_gated(first):
+            continue
+        for p in by_dst.get((e.thread, e.src), []):
+            last = next((op for op in reversed(p.info) if op[3]), None)
+            if last is not None and last[2] not in replay.EXPLICIT and last[0] == first[0]:
+                needs.add(id(e))
+    return frozenset(needs)
+
+
 def replayable(enc):
     """discipline under which a model trace can be replayed by a sync-point scheduler: a step whose
     visible operation is a plain shared access directly follows the previous step of its thread."""
@@ -128,23 +153,7 @@ def line_discipline(enc):
     previous step; the set-up thread opens as before."""
     ts = enc.ts
     cons = []
-    by_dst = {}
-    for e in ts.edges:
-        by_dst.setdefault((e.thread, e.dst), []).append(e)
-    needs = set()
-    for e in ts.edges:
-        first = next((op for op in e.info if op[3]), None)
-        if first is None:
-            continue
-        if _postcall(first):
-            needs.add(id(e))
-            continue
-        if not _line_gated(first):
-            continue
-        for p in by_dst.get((e.thread, e.src), []):
-            last = next((op for op in reversed(p.info) if op[3]), None)
-            if last is not None and last[2] not in replay.EXPLICIT and last[0] == first[0]:
-                needs.add(id(e))
+    needs = line_glued(ts)
     pt = ts.threads.index(ts.prefix_thread) if ts.prefix_thread is not None else None
     for i in range(1, enc.K):
         for e, f in enc.fired[i]:
@@ -212,6 +221,7 @@ def check_scenario(spec: dict) -> dict:
         res.update(cfa_locations=ts.n_nodes, cfa_edges=ts.n_edges, raw_edges=len(ts.raw_edges), state_vars=len(ts.vars),
                    universe=ts.U.size, threads=list(ts.threads), protected=sc.protected, programs=sc.programs)
         K = spec["K"]
+        endless = 0
         budget = spec.get("timeout", 600)
         # -- translator validation: random schedules on the CFA simulator, replayed on the real classes
         rng = random.Random(spec.get("seed", 0))
@@ -234,12 +244,17 @@ def check_scenario(spec: dict) -> dict:
             res["harness_errors"].append(f"simulator and real classes disagree on {len(mismatches)} random schedule(s): {json.dumps(mismatches[0], default=repr)[:600]}")
         if not K:
             # depth from the longest of many random complete schedules (+2); the unwinding assertion below is what justifies it
-            longest = 0
+            longest, endless = 0, 0
             r2 = random.Random(12345)
             for _ in range(spec.get("depth_probes", 400)):
-                st, tr = sc.simulate(r2)
-                longest = max(longest, len(tr))
-            K = longest + 2
+                st, tr = sc.simulate(r2, max_steps=400)
+                if len(tr) >= 400:
+                    endless += 1      # a schedule that does not come to rest (a spinning loop): no finite depth covers it
+                else:
+                    longest = max(longest, len(tr))
+            K = (longest or 60) + 2
+            if endless:
+                res["inconclusive"].append(f"{spec['name']}: {endless} random schedule(s) of the model did not come to rest within 400 steps; bounded search at depth {K} only")
         enc = ts.encode(K)
         res["K"] = K
         res["encode_s"] = round(enc.build_s, 1)
@@ -250,13 +265,17 @@ def check_scenario(spec: dict) -> dict:
         use_por = spec.get("por", True) and os.environ.get("VERIF_E2_POR", "1") != "0"
         res["partial_order_reduction"] = "peephole (adjacent independent steps in canonical thread order)" if use_por else "none"
 
-        def run(name, cons, want_model=False, por=True):
+        def run(name, cons, want_model=False, por=True, glued=None):
+            """glued: the steps a replay discipline (in `cons` or `disc`) ties to their thread's previous step"""
             nonlocal enc, disc
             s = solver()
             s.add(enc.cons)
             s.add(disc)
-            if por and use_por and not disc:
-                s.add(enc.por())
+            if por and use_por:
+                g = set(glued or ())
+                if disc:
+                    g |= sync_glued(ts)
+                s.add(enc.por(frozenset(g)))
             s.add(cons)
             t0 = time.time()
             z3.set_param("timeout", int(budget * 1000))
@@ -264,53 +283,68 @@ def check_scenario(spec: dict) -> dict:
             dt = round(time.time() - t0, 1)
             tr = enc.decode(s.model()) if (r == "sat" and want_model) else None
             res["queries"].append({"query": name, "result": r, "seconds": dt})
+            if os.environ.get("VERIF_E2_DEBUG"):
+                print(f"[{spec['name']}] K={K} {name[:60]}: {r} {dt}s", file=sys.stderr, flush=True)
             return r, tr
 
-        # unwinding assertion (deepen a few times if some schedule is longer than the probes suggested)
-        for attempt in range(4):
-            r, _ = run(f"unwinding: some thread can still move at depth K={K} (must be unsat)", [enc.can_move(K)])
-            if r != "sat" or attempt == 3:
-                break
-            K += 8
-            enc = ts.encode(K)
-            res["K"] = K
-            disc = replayable(enc) if spec.get("sync_granularity") else []
-        if r != "unsat":
-            res["inconclusive"].append(f"{spec['name']}: depth K={K} too small or solver gave {r}")
-        # witness
-        r, _ = run("witness: the intended end state is reachable (must be sat)", sc.witness(enc, K))
-        if r != "sat":
-            res["harness_errors"].append(f"{spec['name']}: witness query returned {r} (vacuous scenario?)")
-        # violations
-        bads = model_bad(enc, K, sc.bad, ts)
-        anybad = z3.Or([b for _, b in bads])
-        r, _ = run("violation: any bad condition (must be unsat)", [anybad])
-        if r == "sat":
-            mode = "sync"
-            r2, tr = run("violation, context switches at synchronisation operations (replayable by the sync-point scheduler)", [anybad] + replayable(enc), want_model=True, por=False)
-            if r2 != "sat":
-                mode = "line"
-                r2, tr = run("violation, context switches at source-line boundaries (replayable by the line-granular scheduler)", [anybad] + line_discipline(enc), want_model=True, por=False)
-            if r2 != "sat":
-                res["harness_errors"].append(f"{spec['name']}: a model counterexample exists but none that the replay schedulers can reproduce (sync points: unsat/unknown, source lines: {r2})")
-            else:
-                order = sync_order(tr, ts) if mode == "sync" else line_order(tr, ts)
-                ghost, done, blocked, sched = sc.replay(order, mode=mode)
-                hits = real_bad(sc.bad, ghost, done, blocked)
-                listing = [f"{s['thread']}: " + "; ".join(f"{op[1]}" for op in s["ops"] if op[1])[:160] for s in tr["steps"]]
-                if hits and not sched.diverged:
-                    res["violations"].append({"signature": hits[0], "what": f"{spec['name']}: {hits} (model trace of {len(tr['steps'])} steps replayed on the real classes, {mode}-granular: "
-                                              f"ghost={ghost}, finished={done}, blocked={blocked})", "order": order, "mode": mode, "trace": listing, "scenario": spec})
+        anybad = None
+        def violation_pass():
+            nonlocal anybad
+            bads = model_bad(enc, K, sc.bad, ts)
+            anybad = z3.Or([b for _, b in bads])
+            r, _ = run("violation: any bad condition (must be unsat)", [anybad])
+            if r == "sat":
+                mode = "sync"
+                r2, tr = run("violation, context switches at synchronisation operations (replayable by the sync-point scheduler)", [anybad] + replayable(enc), want_model=True, glued=sync_glued(ts))
+                if r2 != "sat":
+                    mode = "line"
+                    r2, tr = run("violation, context switches at source-line boundaries (replayable by the line-granular scheduler)", [anybad] + line_discipline(enc), want_model=True, glued=line_glued(ts))
+                if r2 != "sat":
+                    res["harness_errors"].append(f"{spec['name']}: a model counterexample exists but none that the replay schedulers can reproduce (sync points: unsat/unknown, source lines: {r2})")
                 else:
-                    res["harness_errors"].append(f"{spec['name']}: model counterexample did not reproduce on the real classes ({mode}-granular replay, diverged={sched.diverged}, hits={hits}, blocked={blocked}); first steps: {listing[:12]}")
-                    if os.environ.get("VERIF_E2_DEBUG"):
-                        print("MODEL TRACE:\n  " + "\n  ".join(listing), file=sys.stderr)
-                        print("MODEL END STATE:", sc.observe_model(tr["states"][-1]) if "states" in tr else None, file=sys.stderr)
-                        print("ORDER:", order, file=sys.stderr)
-                        print("REAL LOG:", sched.log, file=sys.stderr)
-                        print("REAL:", ghost, done, blocked, file=sys.stderr)
-        elif r != "unsat":
-            res["inconclusive"].append(f"{spec['name']}: violation query gave {r}")
+                    order = sync_order(tr, ts) if mode == "sync" else line_order(tr, ts)
+                    ghost, done, blocked, sched = sc.replay(order, mode=mode)
+                    hits = real_bad(sc.bad, ghost, done, blocked)
+                    listing = [f"{s['thread']}: " + "; ".join(f"{op[1]}" for op in s["ops"] if op[1])[:160] for s in tr["steps"]]
+                    if hits and not sched.diverged:
+                        res["violations"].append({"signature": hits[0], "what": f"{spec['name']}: {hits} (model trace of {len(tr['steps'])} steps replayed on the real classes, {mode}-granular: "
+                                                  f"ghost={ghost}, finished={done}, blocked={blocked})", "order": order, "mode": mode, "trace": listing, "scenario": spec})
+                    else:
+                        res["harness_errors"].append(f"{spec['name']}: model counterexample did not reproduce on the real classes ({mode}-granular replay, diverged={sched.diverged}, hits={hits}, blocked={blocked}); first steps: {listing[:12]}")
+                        if os.environ.get("VERIF_E2_DEBUG"):
+                            print("MODEL TRACE:\n  " + "\n  ".join(listing), file=sys.stderr)
+                            print("MODEL END STATE:", sc.observe_model(tr["states"][-1]) if "states" in tr else None, file=sys.stderr)
+                            print("ORDER:", order, file=sys.stderr)
+                            print("REAL LOG:", sched.log, file=sys.stderr)
+                            print("REAL:", ghost, done, blocked, file=sys.stderr)
+            elif r != "unsat":
+                res["inconclusive"].append(f"{spec['name']}: violation query gave {r}")
+            return r
+
+        # a counterexample needs no completeness argument (it is replayed on the real code): look for one first
+        K0 = K
+        rv = violation_pass()
+        if rv == "sat":
+            res["note"] = "counterexample found at depth K before the unwinding assertion was discharged; unwinding and witness queries skipped"
+        else:
+            # unwinding assertion (deepen a few times if some schedule is longer than the probes suggested)
+            for attempt in range(8):
+                r, _ = run(f"unwinding: some thread can still move at depth K={K} (must be unsat)", [enc.can_move(K)])
+                if r != "sat" or attempt == 7 or endless:
+                    break
+                K += 4
+                enc = ts.encode(K)
+                res["K"] = K
+                disc = replayable(enc) if spec.get("sync_granularity") else []
+            if r != "unsat":
+                res["inconclusive"].append(f"{spec['name']}: depth K={K} too small or solver gave {r}")
+            if K != K0:
+                res["queries"] = [q for q in res["queries"] if not q["query"].startswith("violation")]
+                violation_pass()
+            # witness
+            r, _ = run("witness: the intended end state is reachable (must be sat)", sc.witness(enc, K))
+            if r != "sat":
+                res["harness_errors"].append(f"{spec['name']}: witness query returned {r} (vacuous scenario?)")
         if spec.get("export_smt2"):
             path = spec["export_smt2"]
             with open(path, "w") as f:
